@@ -185,18 +185,49 @@ class Runner:
         return stats
 
 
+def distribution(units):
+    d = {"unit_kinds": {}, "scopes_by_depth": {}, "scope_kinds": {}, "uses": 0, "types": 0, "bindings": 0, "finals": 0,
+         "generics": 0, "references": 0, "names_declared_in_several_scopes_of_a_unit": 0}
+
+    def walk(s, depth, names):
+        d["scopes_by_depth"][depth] = d["scopes_by_depth"].get(depth, 0) + 1
+        d["scope_kinds"][s["kind"]] = d["scope_kinds"].get(s["kind"], 0) + 1
+        d["uses"] += len(s["uses"])
+        d["types"] += len(s["types"])
+        d["generics"] += len(s["generics"])
+        for t in s["types"]:
+            d["bindings"] += len(t["binds"])
+            d["finals"] += len(t["finals"])
+            d["references"] += sum(1 for c in t["comps"] if c["ref"]) + (1 if t["extends"] else 0)
+        d["references"] += sum(1 for v in s["vars"] + s["args"] if v["ref"])
+        for c, ns in G.own_names(s).items():
+            for n in ns:
+                names.setdefault((c != "CType", n), 0)
+                names[(c != "CType", n)] += 1
+        for c in s["procs"] + s["ifbodies"] + s["absints"]:
+            walk(c, depth + 1, names)
+    for u in units:
+        d["unit_kinds"][u["kind"]] = d["unit_kinds"].get(u["kind"], 0) + 1
+        names = {}
+        walk(u, 0, names)
+        d["names_declared_in_several_scopes_of_a_unit"] += sum(1 for v in names.values() if v > 1)
+    return d
+
+
 def run(chk):
     chk.build(["theories/Corr/C07.vo", "theories/Props/C07.vo"])
     chk.props("theories/Props/C07.v", THEOREMS)
     rng = chk.rng
     quick = chk.tier == "quick"
+    if not quick:
+        chk.coqchk(["Ford.Props.C07"])
     R = Runner(chk)
     t0 = time.time()
     for f in sorted((core.VERIF / "corpus" / "C07").glob("*.json")):
         R.add("corpus:" + f.name, json.load(open(f))["prog"])
     for label, prog in fixed_programs():
         R.add(label, prog)
-    n = 450 if quick else 5000
+    n = 400 if quick else 3000
     progs = []
     for k in range(n):
         prog = G.Gen(rng).program()
@@ -219,6 +250,7 @@ def run(chk):
             chk.violation("failing-input", {"what": "generated HTML does not show the reference as resolved by "
                                                     "correlate()", "problems": problems[:10], "label": label,
                                             "prog": prog, "files": G.render_files(prog)}, True)
+    stats["distribution"] = distribution([c[2] for c in R.cases])
     chk.extra["c07"] = {"programs": R.nprog, "impl_s": round(t1 - t0, 1), "judge_s": round(time.time() - t1, 1),
                         "html_rows_checked": rows, **stats}
     replay_findings(chk)
